@@ -93,7 +93,9 @@ def is_injected(e: BaseException, fired) -> bool:
     while e is not None and seen < 6:
         if isinstance(e, SimIOError):
             return True
-        if "interrupted" in str(e) and any(s == "db_mid" for s, _ in fired):
+        if any(s == "db_mid" for s, _ in fired) and ("interrupted" in str(e) or "database schema has changed" in str(e)):
+            # (an interrupt that lands while SQLite re-prepares a cached statement after new tables were created
+            #  is reported as SQLITE_SCHEMA instead of SQLITE_INTERRUPT)
             return True
         if any(s == "udf_stop" for s, _ in fired) and (isinstance(e, StopIteration) or "StopIteration" in str(e)):
             return True
